@@ -231,7 +231,25 @@ def rt_items(tier, vseed):
             if ld is not None:
                 topts["lexical_disambiguation"] = ld
             items.append((text, sc["recognizers"][v], topts))
-    return items[:n]
+            if len(items) % 7 == 0:
+                # grammars split over files (fqn-qualified symbol names in the table)
+                isc = pool.import_samename_scenario(rng) if rng.random() < 0.5 else None
+                files = isc["files"] if isc else rng.choice(pool.import_scenario(rng)["versions"])
+                items.append(({"files": files}, None, topts))
+    items = items[:n]
+    # every stand-alone grammar file of the repository (the heavy ones only in thorough)
+    import glob
+
+    base = core.PARGLARE_SRC if os.path.isdir(os.path.join(core.PARGLARE_SRC, "tests")) else "/repo"
+    files = sorted(glob.glob(os.path.join(base, "tests", "**", "*.pg"), recursive=True)
+                   + glob.glob(os.path.join(base, "examples", "**", "*.pg"), recursive=True))
+    heavy = ("java16.pg", "perf/test3/g.pg", "examples/c/c.pg", "examples/c/c2.pg")
+    for f in files:
+        if f.endswith(heavy) and (tier == "quick" or f.endswith(heavy[:2])):
+            continue
+        items.append(({"file": f}, None, {"tables": "LALR", "prefer_shifts": False,
+                                          "prefer_shifts_over_empty": False}))
+    return items
 
 
 def roundtrip(tier, vseed, violations, harness):
